@@ -196,7 +196,7 @@ def main(tier, seed):
     run = Run("C12", tier, seed, "exploration")
     ps = tables.combos() if tier == "thorough" else pairs()
     n = NCPU
-    nwire = 8 if tier == "quick" else 20
+    nwire = 10 if tier == "quick" else 60
     jobs = [{"combos": ps[i::n], "seed": seed, "nwire": nwire, "kinds": ["async"]} for i in range(n) if ps[i::n]]
     run.absorb(run_shards("checks.c12", "shard", jobs, timeout=3400))
     # threaded facade under several string-hash seeds
